@@ -601,14 +601,16 @@ def _truncate(a, unit):
 
 
 def enum_type_clash(t1, t2):
-    """an Enum member directly faces a NON-Enum value whose type is not the type of the member's
-    value (root, common dict keys, any pair of items of two lists / tuples)"""
+    """an Enum member directly faces a value (or the value of another member) whose type is not the type
+    of the member's value (root, common dict keys, any pair of items of two lists / tuples)"""
     e1, e2 = isinstance(t1, Enum), isinstance(t2, Enum)
+    if e1 and e2:
+        return type(t1.value) is not type(t2.value)     # both unwrapped, types still differ
     if e1 != e2:
         m, o = (t1, t2) if e1 else (t2, t1)
         return type(o) is not type(m.value)
     if isinstance(t1, dict) and isinstance(t2, dict):
-        return any(enum_type_clash(t1[k], t2[k]) for k in t1 if k in t2)
+        return any(enum_type_clash(x, y) for x in t1.values() for y in t2.values())   # key cleaning may cross keys
     if isinstance(t1, (list, tuple)) and type(t1) is type(t2):
         return any(enum_type_clash(x, y) for x in t1 for y in t2)
     return False
@@ -1009,6 +1011,8 @@ FIXED_RICH = [
     (E.A, E2.A, _s(enum=True, numty=True)), ({"k": E.C}, {"k": E2.C}, _s(enum=True, sig=0)), ({"k": E2.Z}, {"k": E.C}, _s(enum=True, sig=0, numty=True)),
     ({"k": E.B}, {"k": E2.B}, _s(enum=True, strty=True)), ({E.A: 1}, {E2.A: 1}, _s(enum=True)), ({E.A}, {E2.A}, _s(enum=True)),
     (E.A, E2.A, _s()), ({"k": E.A}, {"k": E2.A}, _s()),
+    (E2.C, E.B, _s(enum=True, case=True)), ({"k": E3.S}, {"k": E.C}, _s(enum=True, case=True)), ({"k": E.A}, {"k": E.B}, _s(enum=True)),
+    ([E.A, 5], [7, 5], _s(enum=True)), ([E.C, "q"], ["q", 3.5], _s(enum=True)),
     (["x"], E.B, _s(enum=True)), ({"k": ["x"]}, {"k": E.B}, _s(enum=True)), (E.D, frozenset([""]), _s(enum=True, case=True)), (E.A, [1], _s(enum=True)),
     (E.A, 1, _s(enum=True)), ([E.A], [1], _s(enum=True)), ({"k": E.A}, {"k": 1}, _s(enum=True)), ({E.A: 1}, {1: 1}, _s(enum=True)),
     ([E.A], [E.B], _s(enum=True)), (E.B, "x", _s(enum=True)), (E.B, "X", _s(enum=True, case=True)),
